@@ -226,7 +226,11 @@ impl PersisterTask {
         loop {
             // write_vectored() may accept only a part of the buffers, write_all() does not.
             let written = match file.write_all(&header).await {
-                Ok(_) => file.write_all(&batch_bytes).await,
+                Ok(_) => match file.write_all(&batch_bytes).await {
+                    // wait for the background write before the published size grows
+                    Ok(_) => file.flush().await,
+                    Err(e) => Err(e),
+                },
                 Err(e) => Err(e),
             };
             match written {
